@@ -66,6 +66,12 @@ TermBad(fr, labs) ==   \* labs: the labels (piece sequences) of one term
                      \/ \E q \in 1..Len(lists[c]) : lists[c][q][4] # om
                      \/ \E q \in 2..Len(lists[c]) : lists[c][q][2] = 0)
             \/ (~IsCat(fr, v) /\ lists[c] # << <<v, 0>> >>)
+\* a factor-valued response (not subset notation): one indicator per level, in level order (sorted, or as declared)
+RespOrderBad(fr, m) ==
+  /\ Len(m.labels) >= 2
+  /\ \A j \in 1..Len(m.labels) : Len(m.labels[j]) = 1 /\ Len(m.labels[j][1]) = 2 /\ m.labels[j][1][2] > 0
+                                  /\ m.labels[j][1][1] = m.labels[1][1][1]
+  /\ [j \in 1..Len(m.labels) |-> m.labels[j][1][2]] # Levels(fr, m.labels[1][1][1])
 CommonTermsBad(fr, m) ==
   \E k \in 1..Len(m.slices) :
     TermBad(fr, SubSeq(m.labels, m.slices[k][1] + 1, m.slices[k][2]))
@@ -104,6 +110,7 @@ BuildClause(e) ==
   ELSE IF CellsBad(fr, e.common, LabelVal) THEN "common_cells_differ_from_label_meaning"
   ELSE IF CellsBad(fr, e.group, GroupLabelVal) THEN "group_cells_differ_from_label_meaning"
   ELSE IF CellsBad(fr, e.resp, LabelVal) THEN "response_cells_differ_from_label_meaning"
+  ELSE IF RespOrderBad(fr, e.resp) THEN "response_level_order"
   ELSE IF CommonTermsBad(fr, e.common) THEN "common_label_order_or_levels"
   ELSE IF GroupTermsBad(fr, e.group) THEN "group_slot_order_or_levels"
   ELSE IF ~e.views THEN "views_disagree"
@@ -130,6 +137,13 @@ PieceVars(lab) == {lab[k][1] : k \in 1..Len(lab)}
 LabelVars(e) ==
   IF e.part = "common" THEN UNION {PieceVars(e.labels[j]) : j \in 1..Len(e.labels)}
   ELSE UNION {PieceVars(e.labels[j][1]) \cup PieceVars(e.labels[j][2]) : j \in 1..Len(e.labels)}
+\* the zero rule, as the statement puts it: a column involving a variable is zero on the rows that hold an
+\* unseen level of it (for treatment indicators the label meaning gives that by itself; the constant
+\* "mean" column and the -1 rows of a sum coding do not), every other entry is what the label says
+ULabelVal(train, fr, lab, r) ==
+  IF \E k \in 1..Len(lab) : Unseen(train, fr, lab[k][1], r) THEN 0 ELSE LabelVal(fr, lab, r)
+UGroupLabelVal(train, fr, lab, r) ==
+  IF \E k \in 1..Len(lab[1]) : Unseen(train, fr, lab[1][k][1], r) THEN 0 ELSE GroupLabelVal(fr, lab, r)
 GroupUnseenBad(e) ==
   \E k \in 1..Len(e.tslices) :
     LET a == e.tslices[k][1]
@@ -142,9 +156,9 @@ GroupUnseenBad(e) ==
         w1 == e.slices[k][2] - b
     IN \/ w1 # w0 + (IF nr = {} THEN 0 ELSE ne)
        \/ \E r \in 1..e.new.n :
-            \/ \E j \in 1..w0 : e.data[r][b + j] # GroupLabelVal(e.new, labs[j], r)
+            \/ \E j \in 1..w0 : e.data[r][b + j] # UGroupLabelVal(e.train, e.new, labs[j], r)
             \/ (nr # {} /\ \E j \in 1..ne :
-                   e.data[r][b + w0 + j] # (IF r \in nr THEN LabelVal(e.new, labs[j][1], r) ELSE 0))
+                   e.data[r][b + w0 + j] # (IF r \in nr THEN ULabelVal(e.train, e.new, labs[j][1], r) ELSE 0))
 ExpectedNewFactors(e) ==
   DistinctSeq(SelectSeq(e.tfac, LAMBDA g : UnseenRows(e.train, e.new, Range(g)) # {}))
 UnseenClause(e) ==
@@ -154,7 +168,7 @@ UnseenClause(e) ==
   ELSE IF Len(e.data) # e.new.n THEN "rows_not_one_per_observation"
   ELSE IF e.mode = "warning" /\ ur # {} /\ ~e.warned THEN "no_warning_in_warning_mode"
   ELSE IF (e.mode = "silent" \/ ur = {}) /\ e.warned THEN "warning_although_silent_or_nothing_unseen"
-  ELSE IF e.part = "common" /\ CellsBad(e.new, [labels |-> e.labels, data |-> e.data], LabelVal) THEN "cells_differ_from_unseen_level_rule"
+  ELSE IF e.part = "common" /\ CellsBad(e.new, [labels |-> e.labels, data |-> e.data], LAMBDA fr, lab, r : ULabelVal(e.train, fr, lab, r)) THEN "cells_differ_from_unseen_level_rule"
   ELSE IF e.part = "group" /\ SlicesBad([slices |-> e.slices, labels |-> [k \in 1..(IF e.data = <<>> THEN 0 ELSE Len(e.data[1])) |-> k]]) THEN "slices_do_not_partition_columns"
   ELSE IF e.part = "group" /\ GroupUnseenBad(e) THEN "group_block_rule_violated"
   ELSE IF e.part = "group" /\ e.factors_new # ExpectedNewFactors(e) THEN "factors_with_new_levels_differ"
